@@ -109,6 +109,11 @@ def gen_case(rng, k):
         if rng.random() < 0.5:
             changes.append(NOMATCH); metas.append({"kind": "nomatch"})
         extra.append("func rep() { %s(7); _ = %s(%s(8)) }" % (FN[kk], FN[i], FN[kk]))
+    if k % 7 == 5:
+        # a change that deletes a commented statement, then changes that edit the imports / match elsewhere
+        changes = [STMT_CHANGES[0][1]] + [rng.choice(IMPORT_CHANGES[:5])[1] for _ in range(rng.randint(1, 2))]
+        metas = [{"kind": "stmt", "name": "drop-commented"}] + [{"kind": "import", "name": "after-dropped-comment"} for _ in changes[1:]]
+        flavour = "mixed"
     if k % 6 == 5:
         fail_at = rng.randrange(n + 1)
         nm, c, decl = rng.choice(FAILING)
